@@ -90,7 +90,7 @@ class Line:
 
     def __init__(self, shape, frame, coordnot='bare', sizenot='', anglenot='', sep='paren_comma', namecase='lower',
                  framecase='lower', sign='', include=None, props=None, latneg=False, text_style='brace', text='hello world',
-                 size_base=None, angle=None, odd_text=False, latzero=False):
+                 size_base=None, angle=None, odd_text=False, latzero=False, hashsep=' # '):
         self.shape, self.frame = shape, frame
         self.coordnot, self.sizenot, self.anglenot = coordnot, sizenot, anglenot
         self.sep, self.namecase, self.framecase = sep, namecase, framecase
@@ -101,6 +101,7 @@ class Line:
         self.size_base = size_base
         self.angle = 33.5 if angle is None else angle
         self.odd_text = odd_text       # "# text(x,y) text={...}" spelling
+        self.hashsep = hashsep         # what stands between the parameters and the properties: ' # ', a tab before or after the '#', nothing
         self.latzero = latzero         # |latitude| < 1 degree: the sign sits on a zero degree field (-0:23:28.04)
 
     # ---- numbers -----------------------------------------------------------
@@ -193,7 +194,7 @@ class Line:
         if self.shape == 'text' and self.odd_text:
             return f'# {line} ' + ' '.join(props)
         if props:
-            line += ' # ' + ' '.join(props)
+            line += self.hashsep + ' '.join(props)
         return line
 
     def frame_word(self):
